@@ -65,7 +65,7 @@ def score_grid(d, ctx):
     ctx.describe(K=K, score=score.tolist())
 
 
-@subcheck(SUBCHECKS, 'score_generated', quick=900, thorough=15000)
+@subcheck(SUBCHECKS, 'score_generated', quick=900, thorough=15000, fuzz=6000)
 def score_generated(d, ctx):
     pa = _pa()
     K = d.int(1, 6)
@@ -172,7 +172,7 @@ def check_alignment(ctx, aligner, mask, args, K, F, name):
     return mapping
 
 
-@subcheck(SUBCHECKS, 'aligners', quick=1500, thorough=25000)
+@subcheck(SUBCHECKS, 'aligners', quick=1500, thorough=25000, fuzz=4000)
 def aligners(d, ctx):
     pa = _pa()
     K = d.int(1, 6)
